@@ -234,15 +234,8 @@ func (r *Receiver) SegmentHandlerFunc(w http.ResponseWriter, req *http.Request) 
 						}
 					}
 				}
-				if ch.maxNrBufSegs > 0 {
-					deleteSegPath := filepath.Join(stream.trDir, fmt.Sprintf("%d%s", rsd.seqNr-ch.maxNrBufSegs, stream.ext))
-					if fileExists(deleteSegPath) {
-						log.Debug("Deleting old segment", "path", deleteSegPath)
-						err = os.Remove(deleteSegPath)
-						if err != nil {
-							log.Warn("Failed to delete old segment", "path", deleteSegPath, "err", err)
-						}
-					}
+				if ch.maxNrBufSegs > 0 && rsd.seqNr >= ch.maxNrBufSegs {
+					removeOldSegments(log, stream.trDir, stream.ext, rsd.seqNr-ch.maxNrBufSegs)
 				}
 			}
 			//TODO. Add test cases for multiple-chunks rewrite
@@ -374,6 +367,33 @@ func (r *Receiver) SegmentHandlerFunc(w http.ResponseWriter, req *http.Request) 
 		}
 	}
 	trD.nrSegsReceived++
+}
+
+// removeOldSegments removes all media segments of a track with sequence number <= lastNrToRemove.
+// Not only lastNrToRemove itself, since segments received before the window was known,
+// or before a gap in the sequence numbers, would otherwise stay forever.
+func removeOldSegments(log *slog.Logger, trDir, ext string, lastNrToRemove uint32) {
+	entries, err := os.ReadDir(trDir)
+	if err != nil {
+		log.Warn("Failed to list track directory", "path", trDir, "err", err)
+		return
+	}
+	for _, e := range entries {
+		name := e.Name()
+		if e.IsDir() || filepath.Ext(name) != ext {
+			continue
+		}
+		nr, err := strconv.ParseUint(strings.TrimSuffix(name, ext), 10, 32)
+		if err != nil || uint32(nr) > lastNrToRemove {
+			continue // init segments and newer media segments
+		}
+		segPath := filepath.Join(trDir, name)
+		log.Debug("Deleting old segment", "path", segPath)
+		err = os.Remove(segPath)
+		if err != nil {
+			log.Warn("Failed to delete old segment", "path", segPath, "err", err)
+		}
+	}
 }
 
 // DiscardUpload reads and discards the upload and returns the status code.
